@@ -444,7 +444,7 @@ def valid_case(case):
     try:
         find_class(case["term"])
         return case["cls"] in CTXS
-    except Exception:
+    except (Exception, HarnessError):
         return False
 
 
